@@ -9,6 +9,7 @@ import (
 	"os"
 	"path/filepath"
 	"sync"
+	"sync/atomic"
 	"time"
 
 	"github.com/gr33nbl00d/caddy-revocation-validator/crl"
@@ -27,7 +28,7 @@ const (
 )
 
 func exportRefresherGraph(c *vk.Ctx) (*graph.Graph, []string, tlcrun.Result) {
-	cfg := fmt.Sprintf("SPECIFICATION Spec\nCONSTANTS\n V = {\"v1\", \"v2\"}\n I = %d\n B = %d\n Global = FALSE\n D = 1\n DropWhenBusy = FALSE\n Export = TRUE\nINVARIANTS TypeOK BoundedRefresh\nPROPERTIES Live\nCHECK_DEADLOCK FALSE\n", refI, refB)
+	cfg := fmt.Sprintf("SPECIFICATION Spec\nCONSTANTS\n V = {\"v1\", \"v2\"}\n I = %d\n B = %d\n Global = FALSE\n D = 1\n DropWhenBusy = FALSE\n LeakOnSibling = FALSE\n Export = TRUE\nINVARIANTS TypeOK BoundedRefresh\nPROPERTIES Live\nCHECK_DEADLOCK FALSE\n", refI, refB)
 	g := graph.New()
 	var perr error
 	res := tlcrun.Run(tlcrun.Options{SpecDir: vk.SpecDir(), Module: "Refresher", Config: cfg, Workers: 2,
@@ -135,7 +136,8 @@ func newRefWorld(seed int64) (*refWorld, error) {
 				rw.mu.Lock()
 				rw.decis[ch] = site[len("crl.update."):]
 				var g chan struct{}
-				if site == "crl.update.run" && rw.parking {
+				if site == "crl.update.run" && rw.parking && rw.isInstance(ch) {
+					// (only passes of the two instances of the model are parked: a sibling that comes and goes runs freely)
 					g = make(chan struct{})
 					rw.gate[ch] = g
 				}
@@ -171,8 +173,24 @@ func newRefWorld(seed int64) (*refWorld, error) {
 	return rw, nil
 }
 
+func (rw *refWorld) isInstance(ch *crl.CRLRevocationChecker) bool {
+	for _, in := range rw.inst {
+		if in.checker == ch {
+			return true
+		}
+	}
+	return false
+}
+
 func (rw *refWorld) close() {
 	world.SetHandler(nil)
+	if refreshMutexLost.Load() {
+		// Cleanup may need the mutex that is gone: the instances are abandoned
+		for _, in := range rw.inst {
+			go in.w.Destroy()
+		}
+		return
+	}
 	for _, in := range rw.inst {
 		in.w.Destroy()
 	}
@@ -193,7 +211,14 @@ type refStep struct {
 // A tick is one updateCRLs(false) call in its own goroutine, started as soon as the instance is due (like the ticker loop
 // does); a pass that runs is parked inside the refresh mutex until the specification's TickEnd, so that ticks of the other
 // instance really meet a taken mutex.
+// refreshMutexLost: the process-wide refresh mutex of this process is taken for good (established as a violation): every further
+// validator in this process would only hang, so the rest of the check is skipped and what was found stands.
+var refreshMutexLost atomic.Bool
+
 func runRefresherWalk(c *vk.Ctx, walk []*graph.Edge, seed int64) {
+	if refreshMutexLost.Load() {
+		return
+	}
 	rw, err := newRefWorld(seed)
 	if err != nil {
 		c.Infra("refresher world: %v", err)
@@ -279,9 +304,47 @@ func runRefresherWalk(c *vk.Ctx, walk []*graph.Edge, seed int64) {
 			return map[string]any{"steps": hist, "interval_units": refI, "bound": refB * refI}
 		}
 		switch op[0].(string) {
+		case "sibling":
+			// another validator instance comes and goes in this process: what Caddy does with a configuration it loads next to the
+			// running one (and cleans up when it is rejected or replaced)
+			kind := op[1].(string)
+			wc := world.Cfg{Mode: "crl_only", Storage: "disk", Sig: "none", Fetch: "fetch_actively", Interval: "1h"}
+			sw, err := world.New(wc)
+			if err != nil {
+				c.Infra("sibling world: %v", err)
+			}
+			switch kind {
+			case "inuse":
+				sw.WorkDirAs = rw.inst["v1"].w.WorkDir // a work_dir that a running instance has registered
+			case "missing":
+				sw.WorkDirAs = filepath.Join(sw.Sandbox, "does", "not", "exist")
+			}
+			perr := sw.Provision() // (a failed Provision is followed by Cleanup, as in Caddy)
+			step.Real = fmt.Sprintf("provision: %v", perr)
+			if kind != "ok" && perr == nil {
+				c.Drift("sibling-provision-succeeded:" + kind)
+			}
+			if perr == nil {
+				sw.Cleanup()
+			}
+			os.RemoveAll(sw.Sandbox)
+			c.Eval(e.From + "|" + string(e.Op))
 		case "advance":
 			if to.Holder == "none" {
-				crl.VerifShiftLastUpdateFinish(unit, rw.inst["v1"].checker, rw.inst["v2"].checker)
+				// (the accessor takes the refresh mutex, which nobody holds now: every pass this walk started has ended)
+				shifted := make(chan struct{})
+				go func() {
+					defer close(shifted)
+					crl.VerifShiftLastUpdateFinish(unit, rw.inst["v1"].checker, rw.inst["v2"].checker)
+				}()
+				select {
+				case <-shifted:
+				case <-time.After(10 * time.Second):
+					hist = append(hist, step)
+					refreshMutexLost.Store(true)
+					c.Violation("refresh-mutex-taken-although-no-pass-in-progress", "no refresh pass is in progress in this process, yet the process-wide refresh mutex cannot be taken within 10 s: no instance will ever refresh again", rep())
+					return
+				}
 			} else {
 				crl.VerifShiftLastUpdateFinishUnlocked(unit, rw.inst["v1"].checker, rw.inst["v2"].checker)
 			}
@@ -306,6 +369,18 @@ func runRefresherWalk(c *vk.Ctx, walk []*graph.Edge, seed int64) {
 			if step.Real != exp.Decision {
 				c.Drift("refresher-decision:" + exp.Decision + "->" + step.Real)
 				if step.Real == "timeout" {
+					var from struct {
+						Holder string `json:"holder"`
+					}
+					json.Unmarshal([]byte(e.From), &from)
+					if from.Holder == "none" {
+						// every pass this walk started has ended, nothing of the two instances holds the refresh mutex, and still the tick
+						// does not get to its decision within 10 s: its CRLs are not fetched again (C15, "independently of other instances")
+						hist = append(hist, step)
+						refreshMutexLost.Store(true)
+						c.Violation("tick-blocked-although-no-pass-in-progress", fmt.Sprintf("the tick of %s neither ran nor was skipped within 10 s although no refresh pass is in progress in this process", v), rep())
+						return
+					}
 					if os.Getenv("VERIF_DEBUG") != "" {
 						b, _ := json.Marshal(hist)
 						fmt.Fprintf(os.Stderr, "C15TIMEOUT v=%s from=%s hist=%s\n", v, e.From, b)
@@ -412,7 +487,13 @@ func C15(c *vk.Ctx) {
 			}
 		}
 	}
-	walks += c15ProvisionIntake(c)
+	if !refreshMutexLost.Load() {
+		walks += c15ProvisionIntake(c)
+	}
+	if refreshMutexLost.Load() {
+		c.Set("note", "the rest of the check was skipped: the process-wide refresh mutex is taken for good (see the violation)")
+		return
+	}
 	// API level: first loads that fail (unreachable, garbage) and are made up for by a later pass, in the foreground and in the
 	// background, with and without signature verification; lists signed by the sibling key are failed attempts under verify and
 	// accepted versions under verify_log, after which the location must go on being refreshed like any other
